@@ -22,6 +22,8 @@ pub struct Scales {
     pub weighted: BTreeMap<Car, f64>,
     pub tot_energy: f64,
     pub tot_weighted: f64,
+    /// Σ|DEMANDA values|
+    pub needs: f64,
 }
 
 impl Scales {
@@ -65,6 +67,7 @@ impl Scales {
         }
         s.tot_energy *= c;
         s.tot_weighted *= c;
+        s.needs *= c;
         s
     }
     pub fn s_energy(&self, car: Option<Car>) -> f64 {
@@ -84,6 +87,7 @@ impl Scales {
         let base = match e.kind {
             EK::Energy | EK::StepVec => tol(self.s_energy(e.car), self.n),
             EK::Weighted => tol(self.s_weighted(e.car), self.n),
+            EK::Need => tol(self.needs, self.n),
             EK::RatioVec => 2e-5,
             EK::Ratio => 1e-4, // ratios are compared by dedicated code; fallback only
             EK::Param => 1e-6,
